@@ -75,8 +75,239 @@ Proof.
   - destruct (ends_with_star_slash _); simpl; auto with np.
   - unfold pty in E. rewrite Hb, orb_false_r in E.
     pose proof (shaped_pair s Hs) as Hp. unfold pair_ok in Hp. unfold pty in Hp. rewrite E in Hp. simpl in Hp.
-    unfold peekIs. unfold is_endty in Hp.
+    unfold peekIs, pty. unfold is_endty in Hp.
     destruct (pk_nl (ps_peek s)); simpl; [exact Hs|].
-    simpl in Hp. unfold pty. apply orb_true_iff in Hp as [-> | ->]; simpl; try exact Hs.
-    rewrite orb_true_r. simpl. exact Hs.
+    simpl in Hp. apply orb_true_iff in Hp as [Hp|Hp]; rewrite Hp; simpl; [exact Hs|].
+    rewrite andb_false_r. simpl. exact Hs.
+Qed.
+
+Lemma out_ok_bind {A B} (r : res A) (k : A -> pstate -> res B) :
+  out_ok r -> (forall x s1, shaped s1 -> out_ok (k x s1)) ->
+  out_ok (match r with ROk x s1 => k x s1 | RPanic w => RPanic w | RFuel => RFuel end).
+Proof. destruct r; simpl; auto. Qed.
+
+Lemma funcParams_shaped fuel : forall acc s ids s',
+  funcParamsLoop fuel acc s = Some (ids, s') -> shaped s -> shaped s'.
+Proof.
+  induction fuel as [|fuel IH]; intros acc s ids s' H Hs; simpl in H; [discriminate|].
+  destruct (peekIs s token_COMMA); [eapply IH; eauto with np|injection H as <- <-; exact Hs].
+Qed.
+
+Lemma parseFunctionParameters_ok fuel s : shaped s -> out_ok (parseFunctionParameters fuel s).
+Proof.
+  intros Hs. unfold parseFunctionParameters. destruct (peekIs s token_RPAREN); simpl; [auto with np|].
+  destruct (funcParamsLoop fuel _ (nextToken s)) as [[ids s2]|] eqn:Hl; [|exact I].
+  pose proof (funcParams_shaped _ _ _ _ _ Hl (shaped_next _ Hs)) as Hs2.
+  pose proof (shaped_expect s2 token_RPAREN Hs2) as Hs3.
+  destruct (expectPeek s2 token_RPAREN) as [ok s3]. simpl in Hs3. destruct ok; simpl; exact Hs3.
+Qed.
+
+Section NoPanic.
+Variable conv : numconv.
+
+Definition NPE f := forall prec s, shaped s -> out_ok (parseExpression conv f prec s).
+Definition NPL f := forall prec left s, shaped s -> out_ok (exprLoop conv f prec left s).
+Definition NPP f := forall fn s, shaped s -> table_get prefix_fns (pty (ps_cur s)) = Some fn -> out_ok (prefixFn conv f fn s).
+Definition NPI f := forall fn left s, shaped s -> table_get infix_fns (pty (ps_cur s)) = Some fn -> out_ok (infixFn conv f fn left s).
+Definition NPM f := forall left more s, shaped s -> out_ok (parseLambdaMulti conv f left more s).
+Definition NPG f := forall s, shaped s -> out_ok (parseGroupedExpression conv f s).
+Definition NPIf f := forall s, shaped s -> out_ok (parseIfExpression conv f s).
+Definition NPB f := forall s, shaped s -> out_ok (parseBlockStatement conv f s).
+Definition NPBL f := forall acc s, shaped s -> out_ok (blockLoop conv f acc s).
+Definition NPS f := forall s, shaped s -> out_ok (parseStatement conv f s).
+Definition NPEL f := forall endt s, shaped s -> out_ok (parseExpressionList conv f endt s).
+Definition NPELL f := forall endt acc s, shaped s -> out_ok (exprListLoop conv f endt acc s).
+Definition NPML f := forall t acc s, shaped s -> out_ok (parseMapLoop conv f t acc s).
+
+Definition NAll f := NPE f /\ NPL f /\ NPP f /\ NPI f /\ NPM f /\ NPG f /\ NPIf f /\ NPB f /\ NPBL f /\ NPS f /\ NPEL f
+                     /\ NPELL f /\ NPML f.
+
+Lemma cur_next s : ps_cur (nextToken s) = ps_peek s.
+Proof. unfold nextToken. destruct (ps_rest s); reflexivity. Qed.
+
+(* one generic step: split on the outermost control construct of the body *)
+Ltac np_step :=
+  match goal with
+  | |- out_ok (ROk _ _) => simpl; eauto 8 with np
+  | |- out_ok RFuel => exact I
+  | |- out_ok (if ?b then _ else _) => destruct b eqn:?
+  | |- out_ok (let '(_, _) := expectPeek ?s ?t in _) =>
+      let H := fresh "Hex" in
+      assert (H : shaped (snd (expectPeek s t))) by eauto 8 with np;
+      destruct (expectPeek s t) as [? ?]; simpl in H
+  | |- out_ok (match ?r with ROk _ _ => _ | RPanic _ => _ | RFuel => _ end) =>
+      apply out_ok_bind; [eauto 10 with np | intros ? ? ?]
+  | |- out_ok (match ?e with Some _ => _ | None => _ end) => destruct e eqn:?
+  | |- out_ok (let '(_, _) := ?p in _) => destruct p
+  | |- out_ok _ => solve [eauto 10 with np]
+  end.
+Ltac np_crunch := cbv zeta; repeat np_step.
+
+Lemma NPE_step f : NAll f -> NPE (S f).
+Proof.
+  intros (HPE & HPL & HPP & HPI & HPM & _). unfold NPE. intros prec s Hs. rewrite parseExpression_S.
+  destruct (curIs s token_EOL); [simpl; auto with np|].
+  destruct (table_get prefix_fns (pty (ps_cur s))) as [fn|] eqn:Hfn; [|np_crunch].
+  apply out_ok_bind; [apply HPP; assumption|]. intros left s1 Hs1. np_crunch.
+Qed.
+
+Lemma NPL_step f : NAll f -> NPL (S f).
+Proof.
+  intros (HPE & HPL & HPP & HPI & _). unfold NPL. intros prec left s Hs. rewrite exprLoop_S. cbv zeta.
+  destruct (negb (peekIs s token_SEMICOLON) && (prec <? peekPrecedence s)); [|simpl; exact Hs].
+  destruct (table_get infix_fns (pty (ps_peek s))) as [fn|] eqn:Hfn; [|simpl; exact Hs].
+  destruct (_ && pk_ws (ps_peek s)); [simpl; exact Hs|].
+  apply out_ok_bind; [apply HPI; [auto with np|rewrite cur_next; exact Hfn]|]. intros l' s2 Hs2. apply HPL, Hs2.
+Qed.
+
+Lemma NPS_step f : NAll f -> NPS (S f).
+Proof. intros (HPE & _). unfold NPS. intros s Hs. rewrite parseStatement_S. np_crunch. Qed.
+
+Lemma NPBL_step f : NAll f -> NPBL (S f).
+Proof.
+  intros (_ & _ & _ & _ & _ & _ & _ & _ & HPBL & HPS & _). unfold NPBL. intros acc s Hs. rewrite blockLoop_S. np_crunch.
+Qed.
+
+Lemma NPB_step f : NAll f -> NPB (S f).
+Proof.
+  intros (_ & _ & _ & _ & _ & _ & _ & _ & HPBL & _). unfold NPB. intros s Hs. rewrite parseBlockStatement_S.
+  apply HPBL. auto with np.
+Qed.
+
+Lemma NPELL_step f : NAll f -> NPELL (S f).
+Proof.
+  intros (HPE & _ & _ & _ & _ & _ & _ & _ & _ & _ & _ & HPELL & _). unfold NPELL. intros endt acc s Hs.
+  rewrite exprListLoop_S. np_crunch.
+Qed.
+
+Lemma NPEL_step f : NAll f -> NPEL (S f).
+Proof.
+  intros (HPE & _ & _ & _ & _ & _ & _ & _ & _ & _ & _ & HPELL & _). unfold NPEL. intros endt s Hs.
+  rewrite parseExpressionList_S. np_crunch.
+Qed.
+
+Lemma NPML_step f : NAll f -> NPML (S f).
+Proof.
+  intros (HPE & _ & _ & _ & _ & _ & _ & _ & _ & _ & _ & _ & HPML). unfold NPML. intros t acc s Hs.
+  rewrite parseMapLoop_S. np_crunch.
+Qed.
+
+Lemma NPIf_step f : NAll f -> NPIf (S f).
+Proof.
+  intros (HPE & _ & _ & _ & _ & _ & HPIf & HPB & _). unfold NPIf. intros s Hs.
+  rewrite parseIfExpression_S. np_crunch.
+Qed.
+
+Lemma NPM_step f : NAll f -> NPM (S f).
+Proof.
+  intros (HPE & _ & _ & _ & _ & _ & _ & HPB & _). unfold NPM. intros left more s Hs.
+  rewrite parseLambdaMulti_S. np_crunch.
+Qed.
+
+Lemma NPG_step f : NAll f -> NPG (S f).
+Proof.
+  intros (HPE & _ & _ & _ & HPM & _ & _ & _ & _ & _ & HPEL & _). unfold NPG. intros s Hs.
+  rewrite parseGroupedExpression_S. np_crunch.
+Qed.
+
+Lemma known_infix_fn ty fn : table_get infix_fns ty = Some fn -> str_in known_infix fn = true.
+Proof.
+  intros H. pose proof tables_known_ok as E. unfold tables_known in E.
+  apply andb_true_iff in E as [E _]. apply andb_true_iff in E as [_ E].
+  exact (table_get_forall _ _ _ _ E H).
+Qed.
+Lemma known_prefix_fn ty fn : table_get prefix_fns ty = Some fn -> str_in known_prefix fn = true.
+Proof.
+  intros H. pose proof tables_known_ok as E. unfold tables_known in E.
+  apply andb_true_iff in E as [E _]. apply andb_true_iff in E as [E _].
+  exact (table_get_forall _ _ _ _ E H).
+Qed.
+
+Lemma NPI_step f : NAll f -> NPI (S f).
+Proof.
+  intros (HPE & _ & _ & _ & HPM & _ & _ & _ & _ & _ & HPEL & _). unfold NPI. intros fn left s Hs Hfn.
+  pose proof (known_infix_fn _ _ Hfn) as Hk.
+  rewrite infixFn_S. cbv zeta.
+  destruct (String.eqb fn "parseInfixExpression") eqn:E1; [np_crunch|].
+  destruct (String.eqb fn "parseCallExpression") eqn:E2; [np_crunch|].
+  destruct (String.eqb fn "parseIndexExpression") eqn:E3; [np_crunch|].
+  destruct (String.eqb fn "parseLambdaExpression") eqn:E4; [np_crunch|].
+  unfold str_in, known_infix in Hk. cbn [existsb] in Hk. rewrite E1, E2, E3, E4 in Hk. discriminate.
+Qed.
+
+Lemma NPP_step f : NAll f -> NPP (S f).
+Proof.
+  intros (HPE & _ & _ & _ & _ & HPG & HPIf & HPB & _ & _ & HPEL & _ & HPML). unfold NPP. intros fn s Hs Hfn.
+  pose proof (known_prefix_fn _ _ Hfn) as Hk.
+  rewrite prefixFn_S. cbv zeta.
+  destruct (String.eqb fn "parseIdentifier") eqn:E1.
+  { unfold parseIdentifier. destruct (table_get postfix_fns _); simpl; auto with np. }
+  assert (Hfl : out_ok (parseFloatLiteral conv s)).
+  { unfold parseFloatLiteral. destruct (conv_float conv _); simpl; auto with np. }
+  destruct (String.eqb fn "parseIntegerLiteral") eqn:E2.
+  { unfold parseIntegerLiteral. destruct (conv_int conv _); simpl; auto. }
+  destruct (String.eqb fn "parseFloatLiteral") eqn:E3; [exact Hfl|].
+  destruct (String.eqb fn "parseBoolean") eqn:E4; [simpl; exact Hs|].
+  destruct (String.eqb fn "parseStringLiteral") eqn:E5; [simpl; exact Hs|].
+  destruct (String.eqb fn "parseControlExpression") eqn:E6; [simpl; exact Hs|].
+  destruct (String.eqb fn "parseComment") eqn:E7.
+  { apply String.eqb_eq in E7. subst fn. apply parseComment_ok; assumption. }
+  destruct (String.eqb fn "parsePrefixExpression") eqn:E8; [np_crunch|].
+  destruct (String.eqb fn "parseGroupedExpression") eqn:E9; [np_crunch|].
+  destruct (String.eqb fn "parseIfExpression") eqn:E10; [np_crunch|].
+  destruct (String.eqb fn "parseForExpression") eqn:E11; [np_crunch|].
+  destruct (String.eqb fn "parseFunctionLiteral") eqn:E12.
+  { destruct (peekIs s token_IDENT).
+    - np_step. destruct b; simpl; [|exact Hex].
+      apply out_ok_bind; [apply parseFunctionParameters_ok, Hex|]. intros [ps v] s2 Hs2. np_crunch.
+    - np_step. destruct b; simpl; [|exact Hex].
+      apply out_ok_bind; [apply parseFunctionParameters_ok, Hex|]. intros [ps v] s2 Hs2. np_crunch. }
+  destruct (String.eqb fn "parseMacroLiteral") eqn:E13.
+  { np_step. destruct b; simpl; [|exact Hex].
+    apply out_ok_bind; [apply parseFunctionParameters_ok, Hex|]. intros [ps v] s2 Hs2. np_crunch. }
+  destruct (String.eqb fn "parseBuiltin") eqn:E14; [np_crunch|].
+  destruct (String.eqb fn "parseArrayLiteral") eqn:E15; [np_crunch|].
+  destruct (String.eqb fn "parseMapLiteral") eqn:E16; [np_crunch|].
+  unfold str_in, known_prefix in Hk. cbn [existsb] in Hk.
+  rewrite E1, E2, E3, E4, E5, E6, E7, E8, E9, E10, E11, E12, E13, E14, E15, E16 in Hk. discriminate.
+Qed.
+
+Lemma nall : forall f, NAll f.
+Proof.
+  induction f as [|f IH].
+  - unfold NAll. repeat (match goal with |- _ /\ _ => split end);
+      unfold NPE, NPL, NPP, NPI, NPM, NPG, NPIf, NPB, NPBL, NPS, NPEL, NPELL, NPML; intros; exact I.
+  - unfold NAll. repeat (match goal with |- _ /\ _ => split end).
+    + apply NPE_step, IH. + apply NPL_step, IH. + apply NPP_step, IH. + apply NPI_step, IH.
+    + apply NPM_step, IH. + apply NPG_step, IH. + apply NPIf_step, IH. + apply NPB_step, IH.
+    + apply NPBL_step, IH. + apply NPS_step, IH. + apply NPEL_step, IH. + apply NPELL_step, IH.
+    + apply NPML_step, IH.
+Qed.
+
+Lemma programLoop_ok fuel : forall acc s, shaped s -> out_ok (programLoop conv fuel acc s).
+Proof.
+  induction fuel as [|fuel IH]; intros acc s Hs; simpl; [exact I|].
+  destruct (curIs s token_EOF || curIs s token_EOL); [simpl; exact Hs|].
+  destruct (nall fuel) as (_ & _ & _ & _ & _ & _ & _ & _ & _ & HPS & _).
+  apply out_ok_bind; [apply HPS, Hs|]. intros st s1 Hs1. destruct st; [apply IH; auto with np|simpl; exact Hs1].
+Qed.
+End NoPanic.
+
+(* token streams in which a line comment is followed by a token on a new line or by an end marker *)
+Definition comment_shaped (end_type : Z) (toks : list ptok) : bool :=
+  is_endty end_type && chain_ok (toks ++ [mkPtok (mkTok end_type []) false false]).
+
+Theorem parse_never_panics : forall conv fuel end_type toks,
+  comment_shaped end_type toks = true ->
+  forall w, parse_program conv fuel end_type toks <> PPanic w.
+Proof.
+  intros conv fuel end_type toks Hc w. unfold parse_program.
+  assert (Hs : shaped (init_state (mkPtok (mkTok end_type []) false false) toks)).
+  { apply andb_true_iff in Hc as [He Hch]. unfold init_state. apply shaped_next, shaped_next.
+    unfold shaped. cbn [ps_cur ps_peek ps_rest ps_end pty pk ttype]. split; [|exact He].
+    assert (Hc1 : forall a l, (pty a =? token_LINECOMMENT) = false -> chain_ok l = true -> chain_ok (a :: l) = true).
+    { intros a l Ha Hl. destruct l as [|b l]; [reflexivity|]. change (chain_ok (a :: b :: l)) with (pair_ok a b && chain_ok (b :: l)). rewrite Hl. unfold pair_ok. rewrite Ha. reflexivity. }
+    apply Hc1; [reflexivity|]. apply Hc1; [reflexivity|]. exact Hch. }
+  pose proof (programLoop_ok conv fuel [] _ Hs) as H. destruct (programLoop conv fuel [] _); simpl in H; try discriminate.
+  destruct H.
 Qed.
